@@ -17,7 +17,6 @@ package internal
 import (
 	"net/url"
 	"strings"
-	"unicode"
 )
 
 // URLKeyer describes the interface implemented by types that can generate a
@@ -140,8 +139,11 @@ func fromHex(c byte) byte {
 }
 
 // isUnreserved reports whether r is an unreserved character per RFC 3986 §2.3.
+//
+// Only ASCII letters and digits are unreserved: a percent-encoded octet such as
+// %E9 is not the same resource identifier as a raw non-ASCII byte.
 func isUnreserved(r rune) bool {
-	return unicode.IsLetter(r) || unicode.IsDigit(r) ||
+	return ('a' <= r && r <= 'z') || ('A' <= r && r <= 'Z') || ('0' <= r && r <= '9') ||
 		r == '-' || r == '.' || r == '_' || r == '~'
 }
 
